@@ -5,7 +5,9 @@
 (* contract of C15: a conversion helper's output pixel is what             *)
 (* draw.Draw(dst, r, src, sp, draw.Src) produces, i.e.                     *)
 (*     dstModel.Convert(src.At(p))  =  FromRGBA16(dstKind, ToRGBA16(src))  *)
-(* for valid (alpha-premultiplied) source colours.                         *)
+(* for valid (alpha-premultiplied) source colours when un-premultiplying,  *)
+(* and for every stored value when the target is premultiplied (a plain    *)
+(* widening / narrowing of what is stored).                                *)
 (* All arithmetic is arranged to stay below 2^31 (TLC's integers).         *)
 (***************************************************************************)
 EXTENDS Integers, Sequences, TLC
